@@ -20,7 +20,7 @@ type Space struct {
 
 var (
 	alphaL1  = []string{"a", " ", "\n", "\t", "\"", "'", "\\", "/", "*", "+", ";", "{", "}", "é", "\r"}
-	alphaL2  = []string{"k", "pattern", " ", "\n", "\t", "\"", "'", "\\n", "\\q", "\\\\", "+", ";", "{", "}", "//c\n", "/*c*/", "é"}
+	alphaL2  = []string{"k", "pattern", " ", "\n", "\t", "\"", "'", "\\n", "\\q", "\\\\", "+", ";", "{", "}", "//c\n", "/*c*/", "é", "/*c\né*/", "'y\né'"}
 	alphaL2s = []string{"'x'", "/*c*/", "\"", "a", " ", "    ", "\t", "\n", "+", "\\t", "\\q", "é", "\r\n"}
 	alphaL1t = []string{"a", " ", "\n", "\"", "'", "\\", "/", "*", ";", "{"}
 )
